@@ -37,9 +37,9 @@ enum OnlyVariable { P Q }
 scalar Date
 scalar Upload
 interface Ent { id: ID! }
-interface Animal implements Ent { id: ID! legs: Int }
-type Dog implements Ent & Animal { id: ID! legs: Int color: Color owner: Person }
-type Person implements Ent { id: ID! name: String pets(first: Int = 10): [Animal!]! born: Date }
+interface Animal implements Ent { id: ID! legs: Int friends(f: Filter): [Animal!] }
+type Dog implements Ent & Animal { id: ID! legs: Int color: Color owner: Person friends(f: Filter): [Animal!] }
+type Person implements Ent { id: ID! name: String pets(first: Int = 10): [Animal!]! born: Date petsBy(f: Filter, color: Color, only: [OnlyVariable!]): [Animal!]! }
 input Filter { and: [Filter!] or: [Filter!] not: Filter soft: Soft = type softs: [Soft!] = [match, case] color: Color = RED name: String class: Int camelCase: [Int!] = [1] born: Date file: Upload }
 input Unreferenced { x: Int inner: UnreferencedInner loop: Unreferenced }
 input UnreferencedInner { y: Int back: Unreferenced }
